@@ -43,7 +43,7 @@ LeafTy   == {"leafError", "goErr", "ctxDeadline", "errno", "opaqueErrno", "pkgFu
 \* Multi-cause nodes: text = branch texts joined by NL ...
 JoinTy   == {"joinError", "goJoin"}
 \* ... or own text.
-MultiOwnTy == {"goWrapErrors", "opaqueLeafCauses", "uMulti"}
+MultiOwnTy == {"goWrapErrors", "opaqueLeafCauses", "uMulti", "uMultiIs"}
 OpaqueTy == {"opaqueLeaf", "opaqueLeafCauses", "opaqueWrapper"}
 
 WrapTy  == AnnotTy \cup PrefixTy \cup AlwaysPrefixTy \cup FullTy \cup {"opaqueWrapper"}
